@@ -98,7 +98,8 @@ def variants(case, rng, tier):
 def gen_c04(seed, tier="quick"):
     rng = random.Random(f"c04|{seed}")
     # every fourth scenario may contain connections with async_requests (an ordering dependency; no set_data calls)
-    scn = families.random_scenario(rng, parallel_delays=False, p_async=0.3 if seed % 4 == 3 else 0.0, nsims=(2, 4), until=(2, 4))
+    scn = families.random_scenario(rng, parallel_delays=False, p_async=0.3 if seed % 4 == 3 else 0.0, nsims=(2, 4), until=(2, 4),
+                                   p_extra_init=0.4 if seed % 4 == 1 else 0.0)
     scn["lazy"], scn["cache"] = True, True
     # every third scenario: produced values are None now and then (a legal value that must travel like any other)
     # ... and every third scenario: persistent values that RECUR (v, w, v, ...) instead of being unique per step
